@@ -41,15 +41,16 @@ def scenarios(tier):
 
 
 def plan(tier, gen):
+    """(request budget, death budget, deviation bound) of a burst in generation `gen`."""
     if tier == 'quick':
-        return {1: (1, 1)}.get(gen, (0, 1))
-    return {1: (1, 2), 2: (1, 1)}.get(gen, (1, 0))
+        return {1: (1, 1, 2)}.get(gen, (0, 1, 1))
+    return {1: (1, 1, 2), 2: (1, 1, 1)}.get(gen, (1, 0, 1))
 
 
 def bound(tier, scn, gen=1):
     if scn.name == 'sweep':
         return 1 if gen == 1 else 0
-    return sum(plan(tier, gen))
+    return plan(tier, gen)[2]
 
 
 def bounds(tier):
@@ -214,7 +215,7 @@ def run(scn, ch):
         return _run_sweep(scn, ch, res, make_world)
 
     def budgets(g):
-        r, d = plan(tier, g)
+        r, d, _ = plan(tier, g)
         return {'req': r, 'die': d}
 
     def on_quiescent(world, res, gen, win):
